@@ -318,7 +318,9 @@ def check(ctx):
         for m in c.methods.values():
             if m.is_static and m.name in ("request", "set", "set_value", "keypress"):
                 nb += 1
-                has = any(isinstance(x, ast.keyword) and x.arg == "timeout" and "PROTOCOL_TIMEOUT_IN_SECONDS" in ast.unparse(x.value) for x in ast.walk(m.node))
+                from ..handlermodel import builder_keywords
+                kw = builder_keywords(repo, m)
+                has = "timeout" in kw and "PROTOCOL_TIMEOUT_IN_SECONDS" in ast.unparse(kw["timeout"])
                 ctx.ob("R5", f"{m.qual}::has-timeout", has, f"{m.qual} builds a request without timeout=GeckoConfig.PROTOCOL_TIMEOUT_IN_SECONDS (wait_for_response would assert)", m.loc)
     ctx.floor("R5", "request builders", nb, 9)
     ctx.assume("asyncio.Lock hands over in FIFO order and tasks interleave only at await")
